@@ -1602,6 +1602,16 @@ def sync(repo, out):
                    isinstance(n.ast.value, ast.Call)]
         if not d.adds:
             raise AnalysisError(f'{fn.ident}: no perturbation found')
+        realonly = [n for n in g.where(lambda n: n.kind == 'stmt' and isinstance(n.ast, ast.Assign)
+                                       and len(n.ast.targets) == 1)
+                    if isinstance(n.ast.targets[0], ast.Subscript) and isinstance(n.ast.targets[0].value, ast.Attribute)
+                    and n.ast.targets[0].value.attr == 'real'
+                    and rpath(rd, n, n.ast.targets[0].value.value) == 'self._inarray']
+        if not syncs and realonly:
+            out.bad(fn, realonly[0].ast, 'only the REAL part of self._inarray is refreshed: imaginary parts left by an '
+                    'earlier pass (sparsity sample, aborted perturbation) stay in the private complex copy and are '
+                    'read back as derivatives', key='input-sync')
+            continue
         if not syncs:
             if rebinds:
                 out.bad(fn, rebinds[0].ast, 'the input values are bound to a local name instead of being copied '
@@ -2268,6 +2278,66 @@ def exec_sites(repo, out):
             out.ok(fn, stores[0].ast, 'every normal path stores the value in place under the assigned name')
 
 
+# =========================================================================== C14.manual-flag
+# who may write self._manual_decl_partials (True = ExecComp neither declares nor complex-steps its partials)
+MANUAL_WRITERS = {
+    ('ExecComp.__init__', False): 'initial state: ExecComp declares and computes its own partials',
+    ('ExecComp.declare_partials', True): 'user declared partials (method cs/fd): framework approximation takes over',
+    ('ExecComp.declare_coloring', True): 'user declared a coloring: framework approximation takes over',
+    ('ExecComp._setup_partials', False): 'undo of the flag set by the internal super().declare_coloring call',
+    ('ExecComp._setup_vectors', True): 'only under `not self._use_derivatives` (no partials are computed in that setup). '
+                                       'NOTE: never reset, so a later setup() WITH derivatives keeps it -- observed '
+                                       'defect outside the quantifier of C14 (needs two setups), see final report',
+}
+
+
+@rule('C14.manual-flag', floor=4)
+def manual_flag(repo, out):
+    """Only the tabled sites write _manual_decl_partials; the internal writer in _setup_vectors is confined to set-ups without derivatives."""
+    mod = repo.module(EC)
+    for qn, f in mod.funcs.items():
+        for st in astx.walk_stmts(f.node.body):
+            if not isinstance(st, (ast.Assign, ast.AugAssign, ast.AnnAssign)):
+                continue
+            if not any(isinstance(t, ast.Attribute) and t.attr == '_manual_decl_partials' for t in astx.assigned_targets(st)):
+                continue
+            v = st.value if isinstance(st, ast.Assign) else None
+            if not (isinstance(v, ast.Constant) and isinstance(v.value, bool)):
+                out.unsure(f, st, 'non-literal value written to _manual_decl_partials')
+                continue
+            if (qn, v.value) not in MANUAL_WRITERS:
+                if v.value:
+                    out.bad(f, st, f'{qn} switches ExecComp to "partials declared manually" although the user declared '
+                            'nothing: the declaration loop of _setup_partials and compute_partials are skipped and every '
+                            'partial is zero', key='manual-flag-writer')
+                else:
+                    out.bad(f, st, f'{qn} clears the "partials declared manually" flag outside the tabled sites: a user '
+                            'declaration (fd/cs) is overridden by the internal complex step', key='manual-flag-writer')
+                continue
+            if qn == 'ExecComp._setup_vectors':
+                conds = [a for a in astx.ancestors(st) if isinstance(a, ast.If)]
+                okg = False
+                for c in conds:
+                    t = c.test
+                    neg = isinstance(t, ast.UnaryOp) and isinstance(t.op, ast.Not) and \
+                        astx.path(t.operand) == 'self._use_derivatives'
+                    pos = astx.path(t) == 'self._use_derivatives'
+                    inb = astx.in_body(st, c, 'body')
+                    if (neg and inb) or (pos and not inb):
+                        okg = True
+                    elif neg or pos:
+                        okg = 'inverted'
+                if okg is True:
+                    out.ok(f, st, MANUAL_WRITERS[(qn, v.value)][:60])
+                elif okg == 'inverted' or not conds:
+                    out.bad(f, st, 'ExecComp marks its partials as manually declared whenever derivatives ARE in use: it '
+                            'neither declares nor computes them, all partials are zero', key='manual-flag-unguarded')
+                else:
+                    out.unsure(f, st, 'guard of the internal writer not recognised')
+                continue
+            out.ok(f, st, MANUAL_WRITERS[(qn, v.value)][:60])
+
+
 # =========================================================================== C14.table
 # numpy callables whose complex version is not the analytic continuation of the real function: the complex
 # step through them is wrong (silently) or fails.  They may only enter the table through cs_safe.
@@ -2737,4 +2807,44 @@ selftest(
            'if iarray and isinstance(oval, ndarray) and oval.size >= 1:', 'C14.diag'),
     Mutant('slot-scalar-output-whole-store', EC, '                                partials[u, inp][:, i] = imag(subval * inv_stepsize)\n',
            '                                partials[u, inp] = imag(subval * inv_stepsize)\n', 'C14.slot'),
+)
+
+
+# ---- round-2 seeds as permanent mutants; C14.manual-flag
+_FIX_VEC_OLD = """        if not self._use_derivatives:
+            self._manual_decl_partials = True  # prevents attempts to use _viewdict in compute
+
+        self._iodict = _IODict(self._outputs, self._inputs, self._constants)
+
+        self._relcopy = False
+
+        if not self._manual_decl_partials:
+"""
+_FIX_VEC_NEW = """        self._iodict = _IODict(self._outputs, self._inputs, self._constants)
+
+        self._relcopy = False
+        self._viewdict = None
+
+        if self._use_derivatives and not self._manual_decl_partials:
+"""
+selftest(
+    'C14',
+    Mutant('perturb-deferred-pass-restores-last-only', EC,
+           '                            partials[u, inp][:, i] = imag(subval * inv_stepsize).ravel()\n                        ival[idx] -= step\n',
+           '                            partials[u, inp][:, i] = imag(subval * inv_stepsize).ravel()\n                    ival[idx] -= step\n',
+           'C14.perturb'),
+    Mutant('sync-colored-real-part-only', EC, '        inarr[:] = self._inputs.asarray(copy=False)\n        scratch',
+           '        inarr.real[:] = self._inputs.asarray(copy=False)\n        scratch', 'C14.sync'),
+    Mutant('manual-flag-new-writer', EC, '                        self._manual_decl_partials = False  # this gets reset in declare_partials',
+           '                        self._manual_decl_partials = True  # this gets reset in declare_partials', 'C14.manual-flag'),
+    Mutant('manual-flag-guard-inverted', EC, '        if not self._use_derivatives:\n            self._manual_decl_partials = True',
+           '        if self._use_derivatives:\n            self._manual_decl_partials = True', 'C14.manual-flag'),
+    Mutant('manual-flag-unguarded', EC, '        if not self._use_derivatives:\n            self._manual_decl_partials = True',
+           '        self._manual_decl_partials = True', 'C14.manual-flag'),
+    Twin('twin-manual-flag-else-branch', EC, '        if not self._use_derivatives:\n            self._manual_decl_partials = True  # prevents attempts to use _viewdict in compute\n',
+         '        if self._use_derivatives:\n            pass\n        else:\n            self._manual_decl_partials = True\n'),
+    # the candidate repair of the re-setup defect (flag no longer clobbered, compute() keyed on the views)
+    Twin('twin-resetup-repair', EC, _FIX_VEC_OLD, _FIX_VEC_NEW,
+         also=[(EC, '        if not self._manual_decl_partials:\n            if self._relcopy:\n                self._inarray[:]',
+                '        if self._viewdict is not None:\n            if self._relcopy:\n                self._inarray[:]')]),
 )
